@@ -175,15 +175,17 @@ class LinearChecker(DagWalker):
         negative_fluents: Set["up.model.fnode.FNode"] = (
             numerator_negative_fluents | denominator_negative_fluents
         )
-        positivity = True
-        for a in expression.args:
-            if (a.is_int_constant() or a.is_real_constant()) and a.constant_value() < 0:
-                positivity = not positivity
-
-        if positivity:
+        # the sign of the (fluent-free) divisor decides the direction, also when it is not a constant:
+        # use its inferred type as walk_times does
+        t = self._env.type_checker.get_type(expression.arg(1))
+        assert isinstance(t, _IntType) or isinstance(t, _RealType)
+        if t.lower_bound is not None and t.lower_bound > 0:
             return (is_linear, positive_fluents, negative_fluents)
-        else:
+        elif t.upper_bound is not None and t.upper_bound < 0:
             return (is_linear, negative_fluents, positive_fluents)
+        else:
+            fluents = positive_fluents | negative_fluents
+            return (is_linear, fluents, fluents)
 
     def walk_minus(
         self,
